@@ -206,6 +206,10 @@ pub fn basic_settings(initial: usize, strat: ReallocationStrategy) -> StorageSet
 pub trait Subject: Adder + Clone {
     const NAME: &'static str;
     fn fresh(host: Host) -> Self;
+    /// like `fresh`, with storage that grows geometrically (harness speed only; same code paths)
+    fn fresh_growing(host: Host) -> Self {
+        Self::fresh(host)
+    }
     fn host(&self) -> &Host;
     fn host_mut(&mut self) -> &mut Host;
     /// operand depth not counting call frames
@@ -254,6 +258,10 @@ impl Subject for BData {
     const NAME: &'static str = "basic";
     fn fresh(host: Host) -> Self {
         BasicGarnishData::new(host).expect("BasicGarnishData::new")
+    }
+    fn fresh_growing(host: Host) -> Self {
+        let st = || basic_settings(16, ReallocationStrategy::Multiplicative(2));
+        BasicGarnishData::new_with_settings(st(), st(), st(), st(), st(), st(), host).expect("BasicGarnishData::new_with_settings")
     }
     fn host(&self) -> &Host {
         self.companion()
